@@ -459,6 +459,11 @@ def clause_f(rep, F):
     rep.extra["panic_sites"] = {"functions": len(fns), "total": total, "mechanically_discharged": disc, "reviewed": sum(len(v) for v in residual.values())}
     rep.floor("functions reachable from the parsing entry points", len(fns), 200)
     rep.floor("panic-capable sites inventoried", total, 100)
+    # str slices: the byte offset is a character boundary by construction (a review entry cannot see an off-by-one in the offset)
+    from . import utf8
+    ns = utf8.check(rep, F, fns)
+    rep.extra["str_slice_sites"] = ns
+    rep.floor("str slice sites on the parse path", ns, 5)
     # every table entry still names an existing function
     for (fk, kind), ent in sorted(table.items()):
         if fk not in F.fns:
